@@ -305,3 +305,53 @@ func KeyUsageBits(mask uint16) *dt.Node {
 	}
 	return dt.Prim(0, 3, append([]byte{byte(unused)}, b...))
 }
+
+// ScopeMailKinds is the number of mail-SAN shapes of ScopeVariant.
+const ScopeMailKinds = 9
+
+// ScopeVariant rewrites the three scope features of a certificate: the EKU (index into AllEKUs, -1 = no
+// extension), the policy set (nil = no extension) and the mailbox in the SAN: 0 absent, 1 rfc822Name,
+// 2 SmtpUTF8Mailbox otherName, 3 empty rfc822Name, 4 SmtpUTF8Mailbox with Latin-1 bytes under the UTF8String
+// tag, 5 with an OCTET STRING value, 6 with a second element inside the [0] wrapper, 7 with an empty [0]
+// wrapper, 8 with an empty UTF8String.
+func ScopeVariant(der []byte, eku int, policies [][]int, mail int) ([]byte, bool) {
+	v, err := ViewCert(der)
+	if err != nil {
+		return nil, false
+	}
+	if eku < 0 {
+		v.SetEKU()
+	} else {
+		v.SetEKU(AllEKUs[eku])
+	}
+	v.SetPolicies(policies...)
+	smtp := []int{1, 3, 6, 1, 5, 5, 7, 8, 9}
+	gns := []*dt.Node{GNDNS([]byte("scope.example.com"))}
+	switch mail {
+	case 1:
+		gns = append(gns, GNEmail([]byte("user@example.com")))
+	case 2:
+		gns = append(gns, GNOther(smtp, dt.Prim(0, 12, []byte("user@example.com"))))
+	case 3:
+		gns = append(gns, GNEmail([]byte{}))
+	case 4:
+		gns = append(gns, GNOther(smtp, dt.Prim(0, 12, []byte("us\xe9r@example.com"))))
+	case 5:
+		gns = append(gns, GNOther(smtp, dt.Prim(0, 4, []byte("user@example.com"))))
+	case 6:
+		g := GNOther(smtp, dt.Prim(0, 12, []byte("user@example.com")))
+		g.Children[1].Children = append(g.Children[1].Children, dt.Prim(0, 5, nil))
+		gns = append(gns, g)
+	case 7:
+		g := GNOther(smtp, dt.Prim(0, 12, nil))
+		g.Children[1].Children = nil
+		gns = append(gns, g)
+	case 8:
+		gns = append(gns, GNOther(smtp, dt.Prim(0, 12, nil)))
+	}
+	v.SetSAN(false, gns...)
+	if pc, ok := ParseCert(der); ok && pc.SelfSigned {
+		v.SelfSign()
+	}
+	return v.DER(), true
+}
